@@ -174,7 +174,7 @@ class World:
 
     def __init__(self, app, strategy=None, adj_kw=None, listeners=1, infinite_poll=True,
                  line_yields=True, step_limit=400000, record_pilot=False, sndbuf=65536, dispatcher=None,
-                 start_server=True, trace=False):
+                 start_server=True, trace=False, own_map=False):
         install()
         # No cyclic GC while a world runs: a finalizer (e.g. file_wrapper.__del__
         # of an earlier world's trigger) would execute waitress lines at an
@@ -203,6 +203,7 @@ class World:
         self.map_mutations = []
         self.failed = None
         self.gates = {}
+        self.own_map = own_map
         self._last_poll_nevents = -1
         self._idle_polls = 0
         self.spinning = False
@@ -229,8 +230,14 @@ class World:
         self.dispatcher = dispatcher
         for i in range(listeners):
             lsock = self.net.listener(("127.0.0.1", 8080 + i))
-            srv = TcpWSGIServer(self._app_trampoline, map=self.map, _start=True, _sock=lsock,
-                                dispatcher=dispatcher, adj=self.adj)
+            if self.own_map and listeners == 1:
+                # a server constructed the way webtest / the functional-test fixtures do it: without a
+                # socket map of the caller's -- it makes, and polls, one of its own
+                srv = TcpWSGIServer(self._app_trampoline, _start=True, _sock=lsock, dispatcher=dispatcher, adj=self.adj)
+                self.map = srv._map
+            else:
+                srv = TcpWSGIServer(self._app_trampoline, map=self.map, _start=True, _sock=lsock,
+                                    dispatcher=dispatcher, adj=self.adj)
             self.servers.append(srv)
         self.server = self.servers[0]
         self.loop_thread = self.sched.spawn(self._loop, (), name="io-loop", role="io")
